@@ -58,7 +58,16 @@ func run[K comparable](r *engine.Rec, c *cfg[K]) {
 	M := func() col.MapClassLike[K, int] { return col.Map[K, int](common.N()) }
 	A := func(k K, v int) col.AssociationLike[K, int] { return col.Association[K, int](common.N()).Make(k, v) }
 	s := &seqx.Search[Op]{Name: name, MaxSize: 99}
-	s.Inits = []Op{{K: "Make"}, {K: "MakeFromMap"}, {K: "MakeFromMap", Ks: []int{0, 1}}, {K: "MakeFromArray"}, {K: "MakeFromSequence"}}
+	s.Inits = []Op{{K: "Make"}, {K: "MakeFromMap"}, {K: "MakeFromMap", Ks: []int{0, 1}}, {K: "MakeFromArray"}, {K: "MakeFromSequence"},
+		{K: "MakeFromSequenceOfMap", Ks: []int{0, 1}}, {K: "MakeFromSequenceOfMap"}, {K: "MakeFromSequenceOfCatalog", Ks: []int{1, 0}}}
+	var guardSrc any
+	var guardDump string
+	gk := func() string {
+		if guardSrc != nil {
+			return "guarded:"
+		}
+		return ""
+	}
 	for _, ks := range keySeqs(len(c.keys)-1, 3) {
 		if len(ks) >= 2 {
 			s.Inits = append(s.Inits, Op{K: "MakeFromArray", Ks: ks}, Op{K: "MakeFromSequence", Ks: ks})
@@ -83,6 +92,7 @@ func run[K comparable](r *engine.Rec, c *cfg[K]) {
 	}
 	build := func(op Op) (m col.MapLike[K, int], g map[K]int, out rt.Outcome) {
 		g = map[K]int{}
+		guardSrc, guardDump = nil, ""
 		out = rt.Protect(fuel, func() {
 			var as []col.AssociationLike[K, int]
 			for i, ki := range op.Ks {
@@ -103,6 +113,14 @@ func run[K comparable](r *engine.Rec, c *cfg[K]) {
 				m = M().MakeFromArray(as)
 			case "MakeFromSequence":
 				m = M().MakeFromSequence(col.List[col.AssociationLike[K, int]](common.N()).MakeFromArray(as))
+			case "MakeFromSequenceOfMap":
+				src := M().MakeFromArray(as)
+				m = M().MakeFromSequence(src)
+				guardSrc, guardDump = src, dump.Dump(src)
+			case "MakeFromSequenceOfCatalog":
+				src := col.Catalog[K, int](common.N()).MakeFromArray(as)
+				m = M().MakeFromSequence(src)
+				guardSrc, guardDump = src, dump.Dump(src)
 			}
 		})
 		return
@@ -247,7 +265,7 @@ func run[K comparable](r *engine.Rec, c *cfg[K]) {
 			if st, ok := coherent(m, g, "constructor "+op.K); !ok {
 				return st
 			}
-			return seqx.Step{Key: dump.Dump(m), Size: len(g), Expand: true}
+			return seqx.Step{Key: gk() + dump.Dump(m), Size: len(g), Expand: true}
 		}
 		m, g, out := build(path[0])
 		if out.Panicked {
@@ -278,10 +296,13 @@ func run[K comparable](r *engine.Rec, c *cfg[K]) {
 		if st, ok := coherent(m, g, "after "+op.K); !ok {
 			return st
 		}
+		if guardSrc != nil && dump.Dump(guardSrc) != guardDump {
+			return viol(op.K+" on a map built from another collection changes that collection (shared storage)", fmt.Sprint(path[0]))
+		}
 		if len(r.Samples) < 2 && len(path) >= 2 {
 			r.Sample(map[string]any{"search": name, "path": fmt.Sprintf("%+v", path), "op": fmt.Sprintf("%+v", op), "after": fmt.Sprint(gpairs(g))})
 		}
-		return seqx.Step{Key: after, Size: len(g), Expand: true}
+		return seqx.Step{Key: gk() + after, Size: len(g), Expand: true}
 	}
 	s.Run(r)
 }
